@@ -3,29 +3,41 @@ package c18
 
 import (
 	"fmt"
+	"math"
 
 	"github.com/EliCDavis/polyform/modeling"
 	"github.com/EliCDavis/polyform/modeling/primitives"
 	zz "github.com/EliCDavis/polyform/zzverif"
+	"github.com/EliCDavis/vector/vector2"
 	"github.com/EliCDavis/vector/vector3"
 )
 
 func size(name string) float64 {
 	x := zz.Float64(name)
-	zz.Assume(x >= 0.001)
-	zz.Assume(x <= 1000)
+	zz.Assume(x >= 1e-9)
+	zz.Assume(x <= 1e9)
 	return x
+}
+
+// a second size of the same solid: within a factor 1000 of the first (the merge tolerance is proportional to the
+// overall extent, so a feature a billion times smaller than the solid would be merged away; stated outside the
+// claim). Written as ratio x first size so that both inputs range over a box.
+func sizeRelative(name string, first float64) float64 {
+	k := zz.Float64(name + "/first size")
+	zz.Assume(k >= 0.001)
+	zz.Assume(k <= 1000)
+	return k * first
 }
 
 // merge coincident positions. Positions are (concrete unit direction) x (symbolic size); the generators close
 // seams with sin(2*pi) = -2.4e-16 rather than 0, so "coincident" is decided with a relative tolerance.
-func classes(pos []vector3.Float64) []int {
+func classes(pos []vector3.Float64, scale float64) []int {
 	cls := make([]int, len(pos))
 	for i := range pos {
 		cls[i] = i
 		for j := 0; j < i; j++ {
 			d := pos[i].Sub(pos[j])
-			tol := 1e-9 * (1 + absf(pos[i].X()) + absf(pos[i].Y()) + absf(pos[i].Z()))
+			tol := 1e-9 * scale
 			if absf(d.X()) <= tol && absf(d.Y()) <= tol && absf(d.Z()) <= tol {
 				cls[i] = cls[j]
 				break
@@ -43,8 +55,10 @@ func absf(x float64) float64 {
 }
 
 type solid struct {
-	m   modeling.Mesh
-	tag string
+	m       modeling.Mesh
+	tag     string
+	scale   float64 // the solid's overall extent: coincidence is decided relative to it (tolerance proportional to magnitude)
+	normals bool    // the property promises outward vertex normals for this primitive
 }
 
 // closed + consistently oriented: every directed edge (between merged vertices) has exactly one opposite and
@@ -55,7 +69,7 @@ func checkSolid(s solid, wantVolume float64, haveVolume bool) {
 	for i := range pos {
 		pos[i] = pa.At(i)
 	}
-	cls := classes(pos)
+	cls := classes(pos, s.scale)
 	idx := s.m.Indices()
 	T := idx.Len() / 3
 	zz.Assert(idx.Len()%3 == 0 && T >= 4, s.tag+": a solid has at least four triangles")
@@ -81,7 +95,10 @@ func checkSolid(s solid, wantVolume float64, haveVolume bool) {
 	if haveVolume {
 		zz.AssertNear(vol6/6, wantVolume, s.tag+": enclosed volume equals the closed form")
 	}
-	if s.m.HasFloat3Attribute(modeling.NormalAttribute) {
+	if s.normals {
+		zz.Assert(s.m.HasFloat3Attribute(modeling.NormalAttribute), s.tag+": vertex normals are supplied")
+	}
+	if s.normals && s.m.HasFloat3Attribute(modeling.NormalAttribute) {
 		na := s.m.Float3Attribute(modeling.NormalAttribute)
 		for t := 0; t < T; t++ {
 			a, b, c := pos[idx.At(3*t)], pos[idx.At(3*t+1)], pos[idx.At(3*t+2)]
@@ -95,45 +112,121 @@ func checkSolid(s solid, wantVolume float64, haveVolume bool) {
 	zz.Reach("checked")
 }
 
+// volume of the polyhedron inscribed in the unit UV lattice: the top/bottom fans are pyramids over regular n-gons,
+// every band between two rings is a frustum of a regular n-gon pyramid (its side faces are planar trapezoids, so
+// the way the generator splits them into triangles does not matter). Computed here from the parameters alone.
+func ngonArea(n int) float64 { return 0.5 * float64(n) * math.Sin(2*math.Pi/float64(n)) }
+
+func frustum(n int, rho1, rho2, h float64) float64 {
+	return ngonArea(n) * h * (rho1*rho1 + rho1*rho2 + rho2*rho2) / 3
+}
+
+func unitSphereVolume(rows, cols int) float64 {
+	v := 0.
+	for i := 0; i < rows; i++ {
+		p1, p2 := math.Pi*float64(i)/float64(rows), math.Pi*float64(i+1)/float64(rows)
+		v += frustum(cols, math.Sin(p1), math.Sin(p2), math.Cos(p1)-math.Cos(p2))
+	}
+	return v
+}
+
+// hemisphere: rings at elevation pi/2 * i/rows above the equator (i = 0 .. rows-2), apex on top, flat cap below
+func unitHemisphereVolume(rows, cols int) float64 {
+	v := 0.
+	for i := 0; i < rows-1; i++ {
+		e1 := math.Pi / 2 * float64(i) / float64(rows)
+		e2 := math.Pi / 2 * float64(i+1) / float64(rows)
+		r2, y2 := math.Cos(e2), math.Sin(e2)
+		if i == rows-2 {
+			r2, y2 = 0, 1 // the apex closes the last band
+		}
+		v += frustum(cols, math.Cos(e1), r2, y2-math.Sin(e1))
+	}
+	return v
+}
+
 func ZZ_C18_Sphere() {
 	r := size("radius")
 	rows := 2 + zz.Choose("rows", zz.Bound("ROWS"))
 	cols := 3 + zz.Choose("cols", zz.Bound("COLS"))
+	unwelded := zz.Bool("unwelded")
 	zz.Reach("input")
-	m := primitives.UVSphere(r, rows, cols)
-	checkSolid(solid{m, fmt.Sprintf("UVSphere(%d,%d)", rows, cols)}, 0, false)
-	// inscribed polyhedron: smaller than the ball, and not absurdly small
-	pa, idx := m.Float3Attribute(modeling.PositionAttribute), m.Indices()
-	vol6 := 0.
-	for t := 0; t < idx.Len()/3; t++ {
-		a, b, c := pa.At(idx.At(3*t)), pa.At(idx.At(3*t+1)), pa.At(idx.At(3*t+2))
-		vol6 += a.X()*(b.Y()*c.Z()-b.Z()*c.Y()) - a.Y()*(b.X()*c.Z()-b.Z()*c.X()) + a.Z()*(b.X()*c.Y()-b.Y()*c.X())
+	var m modeling.Mesh
+	tag := fmt.Sprintf("UVSphere(%d,%d)", rows, cols)
+	if unwelded {
+		m = primitives.UVSphereUnwelded(r, rows, cols)
+		tag = fmt.Sprintf("UVSphereUnwelded(%d,%d)", rows, cols)
+	} else {
+		m = primitives.UVSphere(r, rows, cols)
 	}
-	ball := 4.1887902047863905 * r * r * r
-	zz.Assert(vol6/6 < ball, "UVSphere: the inscribed polyhedron is smaller than the ball")
+	checkSolid(solid{m, tag, r, !unwelded}, unitSphereVolume(rows, cols)*r*r*r, true)
+	pa := m.Float3Attribute(modeling.PositionAttribute)
 	for i := 0; i < pa.Len(); i++ {
 		p := pa.At(i)
 		zz.AssertNear(p.X()*p.X()+p.Y()*p.Y()+p.Z()*p.Z(), r*r, "UVSphere: every vertex lies on the sphere")
 	}
 }
 
+func ZZ_C18_Hemisphere() {
+	r := size("radius")
+	rows := 2 + zz.Choose("rows", zz.Bound("ROWS"))
+	cols := 3 + zz.Choose("cols", zz.Bound("COLS"))
+	zz.Reach("input")
+	m := primitives.Hemisphere{Radius: r, Capped: true}.UV(rows, cols)
+	checkSolid(solid{m, fmt.Sprintf("Hemisphere(%d,%d)", rows, cols), r, false}, unitHemisphereVolume(rows, cols)*r*r*r, true)
+	pa := m.Float3Attribute(modeling.PositionAttribute)
+	for i := 0; i < pa.Len(); i++ {
+		p := pa.At(i)
+		zz.Assert(p.Y() >= -1e-9*r, "Hemisphere: no vertex below the cap plane")
+		zz.Assert(p.X()*p.X()+p.Y()*p.Y()+p.Z()*p.Z() <= r*r*(1+1e-9), "Hemisphere: every vertex lies within the ball")
+	}
+}
+
+func stripUVs(name string) *primitives.StripUVs {
+	if !zz.Bool(name) {
+		return nil
+	}
+	return &primitives.StripUVs{Start: vector2.New(0., 0.), End: vector2.New(1., 0.5), Width: 0.25}
+}
+
+func circleUVs(name string) *primitives.CircleUVs {
+	if !zz.Bool(name) {
+		return nil
+	}
+	return &primitives.CircleUVs{Center: vector2.New(0.5, 0.5), Radius: 0.5}
+}
+
 func ZZ_C18_Cube() {
-	w, h, d := size("width"), size("height"), size("depth")
+	w := size("width")
+	h, d := sizeRelative("height", w), sizeRelative("depth", w)
 	zz.Reach("input")
 	c := primitives.Cube{Height: h, Width: w, Depth: d}
+	if zz.Bool("with uvs") {
+		c.UVs = &primitives.CubeUVs{Top: stripUVs("top"), Bottom: stripUVs("bottom"), Left: stripUVs("left"), Right: stripUVs("right"), Front: stripUVs("front"), Back: stripUVs("back")}
+	}
+	scale := w + h + d
 	if zz.Bool("welded") {
-		checkSolid(solid{c.Welded(), "Cube.Welded"}, w*h*d, true)
+		checkSolid(solid{c.Welded(), "Cube.Welded", scale, true}, w*h*d, true)
 	} else {
-		checkSolid(solid{c.UnweldedQuads(), "Cube.UnweldedQuads"}, w*h*d, true)
+		checkSolid(solid{c.UnweldedQuads(), "Cube.UnweldedQuads", scale, true}, w*h*d, true)
 	}
 }
 
 func ZZ_C18_Cylinder() {
-	r, h := size("radius"), size("height")
+	r := size("radius")
+	h := sizeRelative("height", r)
 	sides := 3 + zz.Choose("sides", zz.Bound("SIDES"))
 	zz.Reach("input")
-	m := primitives.Cylinder{Sides: sides, Height: h, Radius: r}.ToMesh()
-	// prism over a regular n-gon: area = n/2 r^2 sin(2 pi / n)
-	areas := map[int]float64{3: 1.299038105676658, 4: 2, 5: 2.377641290737884, 6: 2.598076211353316}
-	checkSolid(solid{m, fmt.Sprintf("Cylinder(%d)", sides)}, areas[sides]*r*r*h, true)
+	c := primitives.Cylinder{Sides: sides, Height: h, Radius: r}
+	if zz.Bool("with uvs") {
+		c.UVs = &primitives.CylinderUVs{Top: circleUVs("top"), Bottom: circleUVs("bottom"), Side: stripUVs("side")}
+	}
+	m := c.ToMesh()
+	// prism over a regular n-gon
+	checkSolid(solid{m, fmt.Sprintf("Cylinder(%d)", sides), r + h, true}, ngonArea(sides)*r*r*h, true)
+	pa := m.Float3Attribute(modeling.PositionAttribute)
+	for i := 0; i < pa.Len(); i++ {
+		p := pa.At(i)
+		zz.AssertNear(absf(p.Y()), h/2, "Cylinder: every vertex lies on the top or bottom plane")
+	}
 }
